@@ -144,7 +144,7 @@ func rawList(c *ev.Case, o *rawOpts, depth int, classes *[]string) []byte {
 			}
 			foreign := &refdict.AVPDef{Code: def.Code, Type: "Unknown"}
 			if def.Vendor == 0 || r.IntN(2) == 0 {
-				foreign.Vendor = []uint32{def.Vendor + 1, 99999, 9}[r.IntN(3)]
+				foreign.Vendor = []uint32{def.Vendor + 1, 99999, 9, 0xFFFFFFFF}[r.IntN(4)]
 			}
 			if _, defined := o.ctx.Ix.FindAVP(o.app, foreign.Code, foreign.Vendor); defined {
 				continue
